@@ -98,7 +98,9 @@ def r1_code_tables(ctx):
     ser = F.one(r"^<jsonrpsee_types::error::ErrorCode as .*Serialize>::serialize$")
     de = F.one(r"^<jsonrpsee_types::error::ErrorCode as .*Deserialize<'a>>::deserialize$")
     R.check(bool(ser.calls_to(r"ErrorCode::code$")), "C15.R1", "serialize-uses-code", "Serialize for ErrorCode emits code()", "Serialize for ErrorCode does not go through code()", "%s:%d" % (ser.file, ser.lo))
-    R.check(bool(de.calls_to(r"ErrorCode as std::convert::From<i32>>::from$|^std::convert::From::from$")), "C15.R1", "deserialize-uses-from", "Deserialize for ErrorCode goes through From<i32>", "Deserialize for ErrorCode does not go through From<i32>", "%s:%d" % (de.file, de.lo))
+    import json as _json
+    via_fn_item = bool(re.search(r'"fn": "(<jsonrpsee_types::error::ErrorCode as std::convert::From<i32>>::from|std::convert::From::from)"', _json.dumps([blk for x in F.nested(de) for blk in x.blocks])))
+    R.check(bool(de.calls_to(r"ErrorCode as std::convert::From<i32>>::from$|^std::convert::From::from$")) or via_fn_item, "C15.R1", "deserialize-uses-from", "Deserialize for ErrorCode goes through From<i32>", "Deserialize for ErrorCode does not go through From<i32>", "%s:%d" % (de.file, de.lo))
 
 
 def flow_ref(v):
@@ -307,12 +309,14 @@ def r5_acceptance_table(ctx):
     start = None
     for bi, blk in enumerate(vm.blocks):
         for si, st in enumerate(blk["st"]):
-            if st["s"] == "assign" and st["rv"]["k"] == "agg" and st["rv"]["ak"] == "tuple" and len(st["rv"]["ops"]) == 3:
+            if st["s"] == "assign" and st["rv"]["k"] == "agg" and st["rv"]["ak"] == "tuple" and len(st["rv"]["ops"]) in (2, 3):
                 ps = [op_place(o) for o in st["rv"]["ops"]]
                 if all(p_ is not None for p_ in ps):
                     got = [flow._local_copies_back(vm, p_["l"], 6) for p_ in ps]
-                    if all(slots.get(n) in g for n, g in zip(names, got)):
-                        start = (bi, si, [p_["l"] for p_ in ps])
+                    # the decision is taken on (jsonrpc, result, error) or, where jsonrpc plays no part in it, on (result, error)
+                    want_names = names if len(ps) == 3 else names[1:]
+                    if all(slots.get(n) in g for n, g in zip(want_names, got)):
+                        start = (bi, si, [None] * (3 - len(ps)) + [p_["l"] for p_ in ps])
     if start is None:
         raise AnchorLost("the (jsonrpc, result, error) decision in Response::visit_map")
     OPT = "std::option::Option"
@@ -332,7 +336,8 @@ def r5_acceptance_table(ctx):
                         Enum(OPT, 1, "Some", [Sym("res")]) if r else Enum(OPT, 0, "None", []),
                         Enum(OPT, 1, "Some", [Sym("err")]) if e else Enum(OPT, 0, "None", [])]
                 for l, v in zip(start[2], vals):
-                    env[l] = [v]
+                    if l is not None:
+                        env[l] = [v]
                 for nm, v in zip(names, vals):
                     if nm in slots:
                         env.setdefault(slots[nm], [v])
